@@ -13,7 +13,7 @@ import json
 from pathlib import Path
 from typing import Dict, List, Optional, Set, Tuple
 
-from ..cfg import BASE, CFG, EXC
+from ..cfg import BASE, CFG, EXC, reaching_defs
 from ..engine import (
     AnalysisError,
     FuncNode,
@@ -210,6 +210,9 @@ def run(repo: Repo, R: Report) -> None:
         R.check(last_ok and all(r.exc is None for r in raises) and not rets, r_rr, ORCH, EXECUTE, norm(h),
                 "the handler does not end in a bare `raise` (the caller sees a different exception, or none)", h.lineno)
 
+    # ------------------------------------------------------------------ D1d/D1e the code that closes the bracket cannot itself fail
+    _closing_code_rules(repo, R, fn, g, drivers)
+
     # ------------------------------------------------------------------ D3 ids, order, edges
     r_ids = R.rule("C06-D3-ids-order-edges", "all records of a run carry the run/pipeline id given to pipeline_start; SER node ids follow canonical order; upstream lists are the canonical edges inverted", 6)
     start_call = next(c for c in calls_in(sn.ast) if _orch.is_driver_call(c, drivers, "on_pipeline_start"))
@@ -231,28 +234,52 @@ def run(repo: Repo, R: Report) -> None:
     ser_calls = [c for c in calls_in(fn) if call_attr(c) == "_make_ser_record"]
     if not ser_calls:
         raise AnalysisError("execute(): _make_ser_record call not found")
+    # roles (not spellings): the canonical spec is what pipeline_start was given; the uuid list is the local
+    # assigned `[n["node_uuid"] for n in <canonical nodes>]`; the upstream map is the local assigned
+    # `compute_upstream_map(<canonical>)`
+    canon_var = dotted_name(start_call.args[2]) if len(start_call.args) > 2 else None
+    uuid_lists: Set[str] = set()
+    uuid_lists_canonical: Set[str] = set()
+    um_names: Set[str] = set()
+    for st in walk_no_nested(fn):
+        if isinstance(st, (ast.Assign, ast.AnnAssign)) and st.value is not None:
+            tgts = st.targets if isinstance(st, ast.Assign) else [st.target]
+            names = [t.id for t in tgts if isinstance(t, ast.Name)]
+            if not names:
+                continue
+            m = pat.match("[_N_['node_uuid'] for _N_ in _IT_]", st.value)
+            if m is not None:
+                uuid_lists.update(names)
+                it = m["_IT_"]
+                m2 = pat.match("_C_.get('nodes', _ANY_)", it) or pat.match("_C_['nodes']", it)
+                if m2 is not None and canon_var is not None and dotted_name(m2["_C_"]) == canon_var:
+                    uuid_lists_canonical.update(names)
+            if isinstance(st.value, ast.Call) and call_attr(st.value) == "compute_upstream_map" and len(st.value.args) == 1 and canon_var is not None and dotted_name(st.value.args[0]) == canon_var:
+                um_names.update(names)
+    loop_idx = loop.target.elts[0].id if isinstance(loop.target, ast.Tuple) and isinstance(loop.target.elts[0], ast.Name) else None
     for c in ser_calls:
         R.check(derived_from(dotted_name(kwarg(c, "run_id")), rid_var) and derived_from(dotted_name(kwarg(c, "pipeline_id")), pid_var), r_ids, ORCH, EXECUTE,
                 f"_make_ser_record(status={getattr(kwarg(c, 'status'), 'value', '?')}) ids", "SER identity does not use the run/pipeline ids of pipeline_start", c.lineno)
         nid = dotted_name(kwarg(c, "node_id"))
         up = kwarg(c, "upstream_ids")
-        # node_id = node_uuids[index] for the loop index; upstream = upstream_map.get(node_id, [])
-        vals = assigned_value(fn, nid) if nid else []
-        loop_idx = loop.target.elts[0].id if isinstance(loop.target, ast.Tuple) and isinstance(loop.target.elts[0], ast.Name) else None
-        ok_nid = bool(vals) and all(any(isinstance(s, ast.Subscript) and dotted_name(s.value) == "node_uuids" and dotted_name(s.slice) == loop_idx for s in ast.walk(v)) for v in vals)
-        R.check(ok_nid, r_ids, ORCH, EXECUTE, f"node_id = node_uuids[{loop_idx}] ({getattr(kwarg(c, 'status'), 'value', '?')})", "SER node id is not the canonical uuid at the loop position", c.lineno)
-        ok_up = isinstance(up, ast.Call) and call_attr(up) == "get" and dotted_name(up.func.value) == "upstream_map" and up.args and dotted_name(up.args[0]) == nid
-        R.check(ok_up, r_ids, ORCH, EXECUTE, f"upstream_ids = upstream_map.get({nid}) ({getattr(kwarg(c, 'status'), 'value', '?')})", "SER upstream list is not looked up from the canonical upstream map for this node", c.lineno)
+        # node_id = <uuid list>[<loop index>]; upstream = <upstream map>.get(node_id, [])
+        # the definitions of the node id that *reach* this call (an initial value before the loop does not)
+        vals = []
+        if nid:
+            for use in g.nodes_for(stmt_of(c)):
+                for d in reaching_defs(g, nid, use):
+                    v = getattr(d.ast, "value", None) if d.kind == "stmt" else None
+                    vals.append(v if v is not None else ast.Constant(value=None))
+        ok_nid = bool(vals) and all(any(isinstance(s, ast.Subscript) and dotted_name(s.value) in uuid_lists_canonical and dotted_name(s.slice) == loop_idx for s in ast.walk(v)) for v in vals)
+        R.check(ok_nid, r_ids, ORCH, EXECUTE, f"node_id = <canonical uuid list>[<loop index>] ({getattr(kwarg(c, 'status'), 'value', '?')})", "SER node id is not the canonical uuid at the loop position", c.lineno)
+        ok_up = isinstance(up, ast.Call) and call_attr(up) == "get" and isinstance(up.func, ast.Attribute) and dotted_name(up.func.value) in um_names and bool(up.args) and dotted_name(up.args[0]) == nid
+        R.check(ok_up, r_ids, ORCH, EXECUTE, f"upstream_ids = <upstream map>.get(<node id>) ({getattr(kwarg(c, 'status'), 'value', '?')})", "SER upstream list is not looked up from the canonical upstream map for this node", c.lineno)
     # loop iterates enumerate(nodes) in list order; node_uuids from canonical nodes in order
     it = loop.iter
     ok_iter = isinstance(it, ast.Call) and call_attr(it) == "enumerate" and len(it.args) == 1 and isinstance(it.args[0], ast.Name)
     R.check(ok_iter, r_ids, ORCH, EXECUTE, norm(loop), "nodes are not visited in list order by enumerate()", loop.lineno)
-    nu = assigned_value(fn, "node_uuids")
-    ok_nu = any(isinstance(v, ast.ListComp) and len(v.generators) == 1 and not v.generators[0].ifs and "nodes" in ast.unparse(v.generators[0].iter) and "canonical" in ast.unparse(v.generators[0].iter) for v in nu)
-    R.check(ok_nu, r_ids, ORCH, EXECUTE, "node_uuids = [n['node_uuid'] for n in canonical nodes]", "node uuid list is not the canonical node list in order", fn.lineno)
-    um = assigned_value(fn, "upstream_map")
-    ok_um = any(isinstance(v, ast.Call) and call_attr(v) == "compute_upstream_map" for v in um)
-    R.check(ok_um, r_ids, ORCH, EXECUTE, "upstream_map = compute_upstream_map(canonical)", "upstream map is not computed from the canonical spec", fn.lineno)
+    R.check(bool(uuid_lists_canonical), r_ids, ORCH, EXECUTE, "node_uuids = [n['node_uuid'] for n in canonical nodes]", "node uuid list is not the canonical node list in order", fn.lineno)
+    R.check(bool(um_names), r_ids, ORCH, EXECUTE, "upstream_map = compute_upstream_map(canonical)", "upstream map is not computed from the canonical spec", fn.lineno)
     cum = repo.func(GRAPH, "compute_upstream_map")
     ok = False
     for n in ast.walk(cum):
@@ -264,7 +291,9 @@ def run(repo: Repo, R: Report) -> None:
     # instantiation order = spec order
     inst = repo.func(ORCH, "SemantivaOrchestrator._instantiate_nodes")
     loops = [n for n in walk_no_nested(inst) if isinstance(n, ast.For)]
-    ok = len(loops) == 1 and isinstance(loops[0].iter, ast.Name) and loops[0].iter.id == inst.args.args[1].arg and any(call_attr(c) == "append" and dotted_name(c.func.value) == "nodes" for c in calls_in(loops[0]))
+    from ..engine import returned_values
+    returned_lists = {x.id for rv in returned_values(inst) for x in (rv.elts if isinstance(rv, ast.Tuple) else [rv]) if isinstance(x, ast.Name)}
+    ok = len(loops) == 1 and isinstance(loops[0].iter, ast.Name) and loops[0].iter.id == inst.args.args[1].arg and any(call_attr(c) == "append" and isinstance(c.func, ast.Attribute) and dotted_name(c.func.value) in returned_lists for c in calls_in(loops[0]))
     R.check(ok, r_ids, ORCH, "SemantivaOrchestrator._instantiate_nodes", norm(loops[0]) if loops else "for node_def in pipeline_spec", "nodes are not instantiated by appending in spec order", inst.lineno)
 
     # ------------------------------------------------------------------ D2 writer / schema agreement
@@ -272,6 +301,328 @@ def run(repo: Repo, R: Report) -> None:
 
     # ------------------------------------------------------------------ D4 one line per record
     _line_rules(repo, R)
+
+
+# ---------------------------------------------------------------------------
+# D1d / D1e: handlers and finally blocks that write the closing records
+# ---------------------------------------------------------------------------
+
+STRINGIFIERS = {"str", "repr", "format", "ascii", "safe_repr", "len", "bool", "int", "float", "isinstance", "issubclass", "hasattr", "callable", "id", "hash",
+                "format_exc", "format_exception", "format_exception_only", "format_tb", "sha256_bytes", "hexdigest"}
+SAFE_DUNDERS = {"__name__", "__qualname__", "__module__", "__doc__"}
+
+
+def _comp_targets(e: ast.AST) -> Set[str]:
+    return {x.id for g_ in getattr(e, "generators", []) for x in ast.walk(g_.target) if isinstance(x, ast.Name)}
+
+
+class _Payload:
+    """Does the value of an expression still carry an exception object or a part of it (``exc``, ``exc.args[0]``,
+    ``type(exc)`` ...) that has not been turned into text?  Such a value is arbitrary (whatever the failing
+    processor put into the exception) and is not JSON-serialisable in general."""
+
+    def __init__(self, repo: Repo):
+        self.repo = repo
+
+    def closure(self, region: ast.AST, seed: Set[str]) -> Set[str]:
+        tainted = set(seed)
+        changed = True
+        while changed:
+            changed = False
+            for n in walk_no_nested(region):
+                new: Set[str] = set()
+                if isinstance(n, (ast.Assign, ast.AnnAssign, ast.AugAssign)) and n.value is not None and self.raw(n.value, tainted, region):
+                    tgts = n.targets if isinstance(n, ast.Assign) else [n.target]
+                    for t in tgts:
+                        base = t
+                        while isinstance(base, (ast.Subscript, ast.Attribute)):
+                            base = base.value
+                        for x in ast.walk(base if not isinstance(t, (ast.Tuple, ast.List)) else t):
+                            if isinstance(x, ast.Name):
+                                new.add(x.id)
+                elif isinstance(n, ast.Call) and isinstance(n.func, ast.Attribute) and n.func.attr in ("append", "extend", "add", "update", "setdefault", "insert", "__setitem__"):
+                    if any(self.raw(a, tainted, region) for a in list(n.args) + [k.value for k in n.keywords]):
+                        base = n.func.value
+                        while isinstance(base, (ast.Subscript, ast.Attribute)):
+                            base = base.value
+                        if isinstance(base, ast.Name) and base.id != "self":
+                            new.add(base.id)
+                elif isinstance(n, ast.NamedExpr) and self.raw(n.value, tainted, region):
+                    new.add(n.target.id)
+                if not new <= tainted:
+                    tainted |= new
+                    changed = True
+        return tainted
+
+    def raw(self, e: Optional[ast.AST], tainted: Set[str], ctx: ast.AST, depth: int = 0) -> bool:
+        if e is None or isinstance(e, (ast.Constant, ast.JoinedStr, ast.Compare, ast.Lambda)):
+            return False
+        if isinstance(e, ast.Name):
+            return e.id in tainted
+        if isinstance(e, ast.Attribute):
+            if e.attr in SAFE_DUNDERS:
+                return False
+            return self.raw(e.value, tainted, ctx, depth)
+        if isinstance(e, (ast.Subscript, ast.Starred)):
+            return self.raw(e.value, tainted, ctx, depth)
+        if isinstance(e, ast.UnaryOp):
+            return False if isinstance(e.op, ast.Not) else self.raw(e.operand, tainted, ctx, depth)
+        if isinstance(e, ast.NamedExpr):
+            return self.raw(e.value, tainted, ctx, depth)
+        if isinstance(e, ast.IfExp):
+            return self.raw(e.body, tainted, ctx, depth) or self.raw(e.orelse, tainted, ctx, depth)
+        if isinstance(e, ast.BoolOp):
+            return any(self.raw(v, tainted, ctx, depth) for v in e.values)
+        if isinstance(e, ast.BinOp):
+            if isinstance(e.op, ast.Mod) and isinstance(e.left, (ast.Constant, ast.JoinedStr)):
+                return False  # "text %s" % exc
+            return self.raw(e.left, tainted, ctx, depth) or self.raw(e.right, tainted, ctx, depth)
+        if isinstance(e, ast.Dict):
+            return any(self.raw(v, tainted, ctx, depth) for v in list(e.values) + [k for k in e.keys if k is not None])
+        if isinstance(e, (ast.List, ast.Tuple, ast.Set)):
+            return any(self.raw(v, tainted, ctx, depth) for v in e.elts)
+        if isinstance(e, (ast.ListComp, ast.SetComp, ast.GeneratorExp, ast.DictComp)):
+            inner = set(tainted) - _comp_targets(e)
+            for g_ in e.generators:
+                if self.raw(g_.iter, inner, ctx, depth):
+                    inner |= {x.id for x in ast.walk(g_.target) if isinstance(x, ast.Name)}
+            parts = [e.key, e.value] if isinstance(e, ast.DictComp) else [e.elt]
+            return any(self.raw(p_, inner, ctx, depth) for p_ in parts)
+        if isinstance(e, ast.Call):
+            a = call_attr(e)
+            if a in STRINGIFIERS:
+                return False
+            args = list(e.args) + [k.value for k in e.keywords]
+            recv_raw = isinstance(e.func, ast.Attribute) and self.raw(e.func.value, tainted, ctx, depth)
+            if not recv_raw and not any(self.raw(x, tainted, ctx, depth) for x in args):
+                return False
+            if recv_raw:
+                return True  # a method of the exception / of a part of it: still its payload
+            # a function is handed the payload: look at what it returns
+            try:
+                mod = self.repo.module_of(ctx)
+                targets = self.repo.resolve_call(mod, e)
+            except Exception:
+                targets = []
+            targets = [t for t in targets if isinstance(t[1], ast.FunctionDef)]
+            if not targets or depth >= 2:
+                return True
+            for _m, callee in targets:
+                binding = _bind_params(callee, e)
+                if binding is None:
+                    return True
+                seed = {p_ for p_, v in binding.items() if self.raw(v, tainted, ctx, depth)}
+                inner = self.closure(callee, seed)
+                for r in walk_no_nested(callee):
+                    if isinstance(r, ast.Return) and self.raw(r.value, inner, callee, depth + 1):
+                        return True
+            return False
+        return False
+
+    def leaf(self, e: ast.AST, tainted: Set[str], ctx: ast.AST) -> ast.AST:
+        """The innermost sub-expression that is still raw (for the message)."""
+        for sub in ast.iter_child_nodes(e):
+            if isinstance(sub, ast.expr) and not isinstance(e, ast.Call) and self.raw(sub, tainted, ctx) and not isinstance(sub, ast.Name):
+                return self.leaf(sub, tainted, ctx)
+        if isinstance(e, ast.Dict):
+            for k, v in zip(e.keys, e.values):
+                if self.raw(v, tainted, ctx):
+                    return self.leaf(v, tainted, ctx)
+        return e
+
+
+def _local_names(fn: ast.AST) -> Set[str]:
+    out = _param_names(fn)
+    for n in walk_no_nested(fn):
+        if isinstance(n, ast.Name) and isinstance(n.ctx, (ast.Store, ast.Del)):
+            out.add(n.id)
+        elif isinstance(n, ast.ExceptHandler) and n.name:
+            out.add(n.name)
+        elif isinstance(n, (ast.Import, ast.ImportFrom)):
+            out.update((al.asname or al.name).split(".")[0] for al in n.names)
+        elif isinstance(n, FuncNode + (ast.ClassDef,)) and n is not fn:
+            out.add(n.name)
+    # names bound only inside comprehensions are not function locals
+    comp_only: Set[str] = set()
+    for n in walk_no_nested(fn):
+        if isinstance(n, (ast.ListComp, ast.SetComp, ast.GeneratorExp, ast.DictComp)):
+            comp_only |= _comp_targets(n)
+    plain: Set[str] = set(_param_names(fn))
+    for n in walk_no_nested(fn):
+        if isinstance(n, ast.Name) and isinstance(n.ctx, ast.Store) and not any(isinstance(a, ast.comprehension) for a in _up_to(n, fn)):
+            plain.add(n.id)
+    return {x for x in out if x not in comp_only or x in plain}
+
+
+def _up_to(n: ast.AST, root: ast.AST):
+    for a in ancestors(n):
+        if a is root:
+            return
+        yield a
+
+
+def _loads(part: ast.AST) -> List[ast.Name]:
+    """Name loads evaluated when *part* is evaluated (not inside nested defs/lambdas; comprehension variables excluded)."""
+    out: List[ast.Name] = []
+
+    def rec(n: ast.AST, hidden: frozenset) -> None:
+        if isinstance(n, FuncNode + (ast.Lambda, ast.ClassDef)):
+            return
+        if isinstance(n, (ast.ListComp, ast.SetComp, ast.GeneratorExp, ast.DictComp)):
+            hidden = hidden | frozenset(_comp_targets(n))
+        if isinstance(n, ast.Name) and isinstance(n.ctx, ast.Load) and n.id not in hidden:
+            out.append(n)
+        if isinstance(n, ast.AugAssign) and isinstance(n.target, ast.Name):
+            out.append(n.target)
+        for c in ast.iter_child_nodes(n):
+            rec(c, hidden)
+
+    rec(part, frozenset())
+    return out
+
+
+def _node_defs(n) -> Tuple[Set[str], Set[str]]:
+    """(names bound, names unbound) when CFG node *n* completes normally."""
+    a = n.ast
+    defs: Set[str] = set()
+    kills: Set[str] = set()
+    if a is None:
+        return defs, kills
+    if n.kind == "stmt":
+        if isinstance(a, FuncNode + (ast.ClassDef,)):
+            defs.add(a.name)
+            return defs, kills
+        for x in walk_no_nested(a):
+            if isinstance(x, ast.Name) and isinstance(x.ctx, ast.Store) and not any(isinstance(p_, ast.comprehension) for p_ in _up_to(x, a)):
+                defs.add(x.id)
+            elif isinstance(x, ast.Name) and isinstance(x.ctx, ast.Del):
+                kills.add(x.id)
+            elif isinstance(x, (ast.Import, ast.ImportFrom)):
+                defs.update((al.asname or al.name).split(".")[0] for al in x.names)
+    elif n.kind == "for":
+        defs |= {x.id for x in ast.walk(a.target) if isinstance(x, ast.Name)}
+    elif n.kind == "with":
+        for it in a.items:
+            if it.optional_vars is not None:
+                defs |= {x.id for x in ast.walk(it.optional_vars) if isinstance(x, ast.Name)}
+    elif n.kind == "except":
+        if a.name:
+            defs.add(a.name)
+    if n.kind in ("if", "while") and n.part is not None:
+        defs |= {x.target.id for x in walk_no_nested(n.part) if isinstance(x, ast.NamedExpr)}
+    return defs, kills
+
+
+def _definitely_bound(g: CFG, fn: ast.AST) -> Dict[int, Optional[Set[str]]]:
+    """Forward must-analysis on the CFG: the locals bound on *every* path from the entry to each node.
+    An exception edge leaves its source before the statement has bound anything."""
+    state: Dict[int, Optional[Set[str]]] = {n.id: None for n in g.nodes}
+    state[g.entry] = set(_param_names(fn))
+    todo = [g.entry]
+    while todo:
+        nid = todo.pop()
+        cur = state[nid]
+        assert cur is not None
+        defs, kills = _node_defs(g.nodes[nid])
+        for t, lab in g.succ[nid]:
+            if lab in (EXC, BASE):
+                out = set(cur)
+            elif g.nodes[nid].kind == "for" and lab == "F":
+                out = set(cur)
+            else:
+                out = (set(cur) | defs) - kills
+            old = state[t]
+            new = out if old is None else (old & out)
+            if old is None or new != old:
+                state[t] = new
+                todo.append(t)
+    return state
+
+
+def _closing_code_rules(repo: Repo, R: Report, fn: ast.AST, g: CFG, drivers: Set[str]) -> None:
+    # regions: every except handler / finally block of execute that talks to the trace driver
+    regions: List[Tuple[str, ast.AST, List[ast.stmt]]] = []
+    for t in walk_no_nested(fn):
+        if isinstance(t, ast.Try):
+            for h in t.handlers:
+                if any(_orch.is_driver_call(c, drivers) for st in h.body for c in calls_in(st)):
+                    regions.append((norm(h), h, h.body))
+            if t.finalbody and any(_orch.is_driver_call(c, drivers) for st in t.finalbody for c in calls_in(st)):
+                regions.append((f"finally (after {norm(t.handlers[-1]) if t.handlers else 'try'})", t, t.finalbody))
+    if not regions:
+        raise AnalysisError("execute(): no handler / finally block that calls the trace driver")
+
+    # D1d definite assignment
+    r_bound = R.rule("C06-D1d-closing-code-locals-bound", "every local read in a handler / finally block that writes the closing records (error SER, pipeline_end, flush, close) is bound on every path that reaches it - otherwise UnboundLocalError replaces the original exception before the record is written", 3)
+    bound = _definitely_bound(g, fn)
+    local_names = _local_names(fn)
+    for label, root, body in regions:
+        inside = {id(x) for st in body for x in ast.walk(st)}
+        if isinstance(root, ast.ExceptHandler):
+            inside.add(id(root))
+        reported: Set[Tuple[int, str]] = set()
+        for n in g.nodes:
+            if n.ast is None or id(n.ast) not in inside or bound[n.id] is None:
+                continue
+            part = n.part if n.kind != "except" else n.ast.type
+            if part is None or isinstance(n.ast, FuncNode + (ast.ClassDef,)):
+                continue
+            for nm in _loads(part):
+                if nm.id in local_names and nm.id not in bound[n.id] and (id(n.ast), nm.id) not in reported:
+                    reported.add((id(n.ast), nm.id))
+                    blockers = {m.id for m in g.nodes if nm.id in _node_defs(m)[0]}
+                    seen = g.reach([g.entry], blocked=blockers)
+                    path = g.path_to(seen, n.id) if n.id in seen else None
+                    via = ""
+                    if path:
+                        src = next((p_ for p_ in reversed(path[:-1]) if "<-EXC-" in p_ or "<-BASE-" in p_), None)
+                        prev = path[path.index(src) - 1] if src and path.index(src) > 0 else None
+                        if prev:
+                            via = f" (e.g. when `{prev.split(': ', 1)[-1].split(' <-')[0][:70]}` raises)"
+                    R.violation(r_bound, ORCH, EXECUTE, norm(n.ast)[:120],
+                                f"local `{nm.id}` is read in the code that closes the trace ({label}) but is not bound on every path that reaches it{via}: UnboundLocalError is raised inside the handler, the closing record is not written and the caller gets a different exception", nm.lineno, path)
+        if not reported:
+            R.ok(r_bound, ORCH, EXECUTE, label, "all locals read are definitely bound")
+
+    # D1e exception payload reaches the trace only as text
+    r_pay = R.rule("C06-D1e-exception-reaches-trace-as-text", "whatever a handler takes from the caught exception reaches the trace driver only through str()/repr()/type(..).__name__ (a raw exception object or exc.args element is arbitrary and makes json.dumps raise inside the handler: the error SER / pipeline_end is lost and the caller sees TypeError instead of the original exception)", 2)
+    P = _Payload(repo)
+    for label, root, body in regions:
+        if not isinstance(root, ast.ExceptHandler) or not root.name:
+            continue
+        tainted = P.closure(root, {root.name})
+        sinks = [c for st in body for c in calls_in(st) if _orch.is_driver_call(c, drivers)]
+        # the call that builds a driver-call argument is a sink too (the record constructor)
+        for c in list(sinks):
+            for a in list(c.args) + [k.value for k in c.keywords]:
+                if isinstance(a, ast.Name):
+                    for st in body:
+                        for x in walk_no_nested(st):
+                            if isinstance(x, ast.Assign) and any(isinstance(t, ast.Name) and t.id == a.id for t in x.targets) and isinstance(x.value, ast.Call) and x.value not in sinks:
+                                sinks.append(x.value)
+        for c in sinks:
+            bad = []
+            for kw_name, a in [(None, x) for x in c.args] + [(k.arg, k.value) for k in c.keywords]:
+                if P.raw(a, tainted, root) and not (isinstance(a, ast.Name) and any(isinstance(s_, ast.Call) and s_ is not c and any(isinstance(t, ast.Name) and t.id == a.id for t in getattr(parent_assign(s_), "targets", [])) for s_ in sinks)):
+                    leaf = P.leaf(a, tainted, root)
+                    if isinstance(leaf, ast.Name):
+                        vals = [v for st in body for x in walk_no_nested(st) if isinstance(x, ast.Assign) and any(isinstance(t, ast.Name) and t.id == leaf.id for t in x.targets) for v in [x.value] if P.raw(v, tainted, root)]
+                        if vals:
+                            leaf = P.leaf(vals[0], tainted, root)
+                    bad.append((kw_name, a, leaf))
+            stmt = f"{call_attr(c)}(...) in {label}"
+            if bad:
+                kw_name, a, leaf = bad[0]
+                R.violation(r_pay, ORCH, EXECUTE, stmt,
+                            f"argument {kw_name + '=' if kw_name else ''}`{norm(a)[:60]}` carries `{norm(leaf)[:70]}`: a part of the caught exception that was not turned into text (for a KeyError exc.args[0] is the missing *key* - an Enum, bytes, tuple ...); json.dumps of the record raises TypeError inside the handler, the record is not written and the original exception is replaced", getattr(leaf, "lineno", c.lineno))
+            else:
+                R.ok(r_pay, ORCH, EXECUTE, stmt, "exception enters the record as text only")
+
+
+def parent_assign(call: ast.AST) -> Optional[ast.AST]:
+    from ..engine import parent
+    p = parent(call)
+    return p if isinstance(p, ast.Assign) else None
 
 
 # ---------------------------------------------------------------------------
@@ -365,18 +716,26 @@ def _text_alternatives(repo: Repo, mod, fn: ast.AST, e: ast.AST, depth: int = 0)
             cmod, callee = targets[0]
             binding = _bind_params(callee, e)
             rets = [r.value for r in walk_no_nested(callee) if isinstance(r, ast.Return) and r.value is not None]
-            if binding is not None and rets and cmod is mod:
+            if binding is not None and rets:
                 out = []
                 for rv in rets:
                     for alt in _text_alternatives(repo, cmod, callee, rv, depth + 1):
-                        out.append([_SubstNames(binding).visit(clone(t)) for t in alt])
+                        terms = []
+                        for t in alt:
+                            t2 = _SubstNames(binding).visit(clone(t))
+                            if getattr(t, "_c06_dumps", False):
+                                t2._c06_dumps = True  # type: ignore[attr-defined]
+                            terms.append(t2)
+                        out.append(terms)
                 return out[:16]
+    if _is_json_dumps(repo, mod, e):
+        e._c06_dumps = True  # type: ignore[attr-defined]  (decided with the imports of the module the call is written in)
     return [[e]]
 
 
 def _one_json_line(repo: Repo, mod, terms: List[ast.AST], need_newline: bool = True) -> Tuple[bool, Optional[ast.Call]]:
     """terms == [json.dumps(<record>, no indent)] + constant text equal to one newline."""
-    if not terms or not _is_json_dumps(repo, mod, terms[0]):
+    if not terms or not (getattr(terms[0], "_c06_dumps", False) or _is_json_dumps(repo, mod, terms[0])):
         return False, None
     d = terms[0]
     ind = kwarg(d, "indent")
@@ -629,8 +988,12 @@ def _schema_rules(repo: Repo, R: Report) -> None:
     # parameter_sources enum
     ps_enum = set(props.get("processor", {}).get("properties", {}).get("parameter_sources", {}).get("additionalProperties", {}).get("enum", []))
     rp = repo.func(ORCH, "SemantivaOrchestrator._resolve_params_with_sources")
+    # the provenance table by role: the second component of what the resolver returns
+    src_names = {r.value.elts[1].id for r in walk_no_nested(rp) if isinstance(r, ast.Return) and isinstance(r.value, ast.Tuple) and len(r.value.elts) == 2 and isinstance(r.value.elts[1], ast.Name)}
+    if not src_names:
+        raise AnalysisError("_resolve_params_with_sources: does not return (params, sources) locals")
     for n in walk_no_nested(rp):
-        if isinstance(n, ast.Assign) and any(isinstance(t, ast.Subscript) and dotted_name(t.value) == "source_out" for t in n.targets):
+        if isinstance(n, ast.Assign) and any(isinstance(t, ast.Subscript) and dotted_name(t.value) in src_names for t in n.targets):
             R.check(isinstance(n.value, ast.Constant) and n.value.value in ps_enum, r, ORCH, "SemantivaOrchestrator._resolve_params_with_sources", norm(n), "parameter source label outside the schema enum {context,node,default}", n.lineno)
     # on_node_event: required SER keys are not filtered away (only None-valued top-level keys are dropped)
     one = repo.func(JSONL, "JsonlTraceDriver.on_node_event")
@@ -696,7 +1059,11 @@ def _json_safety_rules(repo: Repo, R: Report, fallback_pops) -> None:
         raise AnalysisError("variable_domain_signature: no returned dict literals recognised")
     bcs = repo.func(GRAPH, "build_canonical_spec")
     dumps = [c for c in calls_in(bcs) if call_name(c) == "json.dumps"]
-    appended = [c for c in calls_in(bcs) if call_attr(c) == "append" and dotted_name(c.func.value) == "nodes"]
+    # the node list by role: the value stored under "nodes" in the returned canonical mapping
+    from ..engine import returned_values
+    node_lists = {v.id for rv in returned_values(bcs) for d in ast.walk(rv) if isinstance(d, ast.Dict) for k, v in zip(d.keys, d.values)
+                  if isinstance(k, ast.Constant) and k.value == "nodes" and isinstance(v, ast.Name)}
+    appended = [c for c in calls_in(bcs) if call_attr(c) == "append" and isinstance(c.func, ast.Attribute) and dotted_name(c.func.value) in node_lists]
     ok = bool(dumps) and bool(appended) and all(d.lineno < appended[0].lineno for d in dumps[:1])
     R.check(ok, r, GRAPH, "build_canonical_spec", "json.dumps(canon) precedes nodes.append(...)", "canonical nodes are no longer serialised when built: a non-JSON parameter is only discovered when the trace is written", bcs.lineno)
     for qn, c, k in fallback_pops:
